@@ -137,6 +137,21 @@ for _pid, _extra in ROUND12.items():
     _l, _t, _text, _n, _r = CHECKS[_pid]
     CHECKS[_pid] = (_l, _t, _text + _extra, _n, _r)
 
+ROUND13 = {
+    "C01": " Round 13: a variable read only beneath a memento callee.",
+    "C04": " Round 13: functions defined again in process with another parameter list.",
+    "C09": " Round 13: partition results; the values served after the threads finished are judged.",
+    "C13": " Round 13: functions in a named cluster, the same-named variable of another module, a registry of memento functions.",
+    "C14": " Round 13: object-style decorators, a four-package program under several hash seeds, a global that answers every attribute.",
+    "C15": " Round 13: ignore_result batches over memoized elements.",
+    "C17": " Round 13: on-disk levels that assign their keys twice.",
+    "C18": " Round 13: repositories built with an explicit clusters argument.",
+    "C19": " Round 13: stale with-data metadata read through the read-only backend.",
+}
+for _pid, _extra in ROUND13.items():
+    _l, _t, _text, _n, _r = CHECKS[_pid]
+    CHECKS[_pid] = (_l, _t, _text + _extra, _n, _r)
+
 NOT_BUILT = "check not built yet in this round (design in DESIGN.md §4); will be claimed once its monitor exists"
 
 
